@@ -213,7 +213,7 @@ def redirect_loop_cases(methods, start=0):
             cases.append({"i": start + len(cases), "iface": "%s.%s" % (p.name, i.name), "method": m.name, "mode": "fault",
                           "status": s, "body": "", "body_fault": False, "fault": "redirect_loop", "via": 0,
                           "logging": s in (302, 307), "wrap": s in (303, 307), "headers": s == 308,
-                          "retry": 1 if s == 301 else None, "opt_timeout": 0,
+                          "retry": 1 if s == 301 else None, "opt_timeout": 0, "nil_body": False, "gzip": False,
                           "_m": m, "_p": p, "_label": "redirect_loop"})
     return cases
 
@@ -229,7 +229,8 @@ def gen_cases(run, pkgs, with_redirect_loops=False):
              "status": kw.pop("status", 0), "body": kw.pop("body", ""), "body_fault": kw.pop("body_fault", False),
              "fault": kw.pop("fault", ""), "via": kw.pop("via", 0), "logging": kw.pop("logging", False),
              "wrap": kw.pop("wrap", False), "headers": kw.pop("headers", False), "retry": kw.pop("retry", None),
-             "opt_timeout": kw.pop("opt_timeout", 0), "_m": m, "_p": p, "_label": kw.pop("label", "")}
+             "opt_timeout": kw.pop("opt_timeout", 0), "nil_body": kw.pop("nil_body", False),
+             "gzip": kw.pop("gzip", False), "_m": m, "_p": p, "_label": kw.pop("label", "")}
         assert not kw, kw
         cases.append(c)
 
@@ -334,6 +335,19 @@ def gen_cases(run, pkgs, with_redirect_loops=False):
                 add(p, i, m, mode="fault", fault=f, status=200, body=bodies[1][1], label=f, **o)
                 s_, (label, b) = rng.choice(answers)
                 add(p, i, m, mode="fab", status=s_, body=b, label="chain_" + label, **o)
+        # ---- a document parameter of pointer type called with nil (json.Marshal sends null): the mapping of the
+        # answer is the same as for any other call -- the status sweep once more (fixed methods: all of it)
+        if m.ptr_body:
+            for s_ in (statuses if det or run.thorough() else rng.sample(inrange, 4)):
+                for j, (label, b) in enumerate(main4 if det or run.thorough() else [rng.choice(main4)]):
+                    add(p, i, m, mode="srv" if (s_ + j + k) % 2 else "fab", status=s_, body=b, label="nilbody_" + label, nil_body=True)
+            for f in ("sentinel", "refused") + (("cancelled",) if m.ctx else ()):
+                add(p, i, m, mode="fault", fault=f, status=200, body="{}", label=f, nil_body=True)
+        # ---- a server that compresses the answer when the request allows it (net/http asks for gzip on its own
+        # and decompresses transparently): the mapping works on the document, whatever the content coding
+        gz_answers = [(s_, lb) for s_ in (200, 201, 400, 404, 500, 503) for lb in (bodies[1], [x for x in bodies if x[0] == "text"][0])]
+        for s_, (label, b) in (gz_answers if det or run.thorough() else rng.sample(gz_answers, 2)):
+            add(p, i, m, mode="srv", status=s_, body=b, label="gzip_" + label, gzip=True, nil_body=m.ptr_body and s_ in (201, 404))
         if k in (0, 4, 5, 9):
             # shoot.Timeout as an option (the constructor turns 1 into one second: open finding K_rest_timeout)
             for o in ({}, {"headers": True}):
@@ -582,7 +596,7 @@ def main(run):
                        "correspondence": "L2:C10:c10drv vs Model/RestHandle.v",
                        "case": pub(c), "signature": c["_m"].decl(), "observed": o,
                        "pkg": {"name": p.name, "ifaces": [i.name for i in p.ifaces]},
-                       "method": {"name": c["_m"].name, "verb": c["_m"].verb, "ctx": c["_m"].ctx,
+                       "method": {"name": c["_m"].name, "verb": c["_m"].verb, "ctx": c["_m"].ctx, "ptr_body": c["_m"].ptr_body,
                                   "results": c["_m"].results},
                        "expected_by_model": model_says(run, c, o),
                        "coq_case": coq_case(c, o, g.coq_fields(c["_m"].results)),
@@ -637,7 +651,8 @@ def main(run):
                  "middleware; for the first 10 methods -- context parameter first / last / middle / absent -- the failures "
                  "that travel through the request context and the statuses 200/400/404/499/500/503/599 with a body also "
                  "through every option set of OPTSETS: non-empty shoot.DefaultHeaders, shoot.Use(RetryMiddleware(0|1|2)), "
-                 "combinations; shoot.Timeout as an option): transport sentinel, response+error, nil/nil, connection refused, context cancelled "
+                 "combinations; shoot.Timeout as an option; methods whose document is a pointer parameter called with nil "
+                 "over the status sweep; answers compressed with gzip by the server): transport sentinel, response+error, nil/nil, connection refused, context cancelled "
                  "before/in flight, context deadline, http.Client.Timeout, stalled body (cancel, timeout), url.JoinPath, "
                  "json.Marshal, nil context.  %d signatures the generator must refuse, one shoot run each.  "
                  "non-trivial = distinct cases with a non-nil error, an empty body, a body that is not plainly decodable, "
@@ -664,6 +679,9 @@ def main(run):
                                 1 for c in cases if c["mode"] in ("srv", "fab") and c["status"] >= 400 and c["body"]
                                 and (c["logging"] or c["wrap"] or c["headers"] or c["retry"] is not None))},
         "context_position_by_context_fault": ctxpos,
+        "pointer_document_methods": len({(c["iface"], c["method"]) for c in cases if c["_m"].ptr_body}),
+        "nil_document_calls": sum(1 for c in cases if c["nil_body"]),
+        "gzip_answers": sum(1 for c in cases if c["gzip"]),
         "refused_signatures": {label: (fatal_of(res[p.name]) or "generated") for label, p in rpkgs},
         "findings_measured": outcome,
         "mismatches": {"raw": len(mism), "timed_rerun": min(len(timed_mism), 40), "timed_not_reproduced": discarded,
@@ -735,7 +753,8 @@ def replay(run, path):
         return 0
     # rebuild the package from the stored sources (no generator involved)
     ms = r["method"]
-    m = g.Method(ms["name"], ms["verb"], ms["ctx"], [(list(n), _tuples(t)) for n, t in ms["results"]])
+    m = g.Method(ms["name"], ms["verb"], ms["ctx"], [(list(n), _tuples(t)) for n, t in ms["results"]],
+                 ptr_body=ms.get("ptr_body", False))
     pkg = g.Pkg(r["pkg"]["name"], [g.Iface(n, []) for n in r["pkg"]["ifaces"]])
     shoot = run.build_shoot()
     mod = l2.make_module(run, MODULE)
